@@ -18,6 +18,13 @@ NOT_CH = "HelloRetryRequest sent in response to a datagram that is not a ClientH
 SITE_NOT_CH = ("internal/handshake/fsm13.go transitionAfterACK / internal/fragmentbuffer pushHandshakeFragments "
                "(any stale handshake fragment counts as a peer retransmission)")
 SIG_NOT_CH = {"monitor": NOT_CH, "version": 13}
+# known (C17, not repaired): FragmentBuffer.pushHandshakeFragments flags a retransmission only for message_seq < current, so ONE
+# identical fragment of the message being assembled or of a later one is "new data" every time it is repeated and
+# `if !IsRetransmit { interval = initial }` pins the endpoint near the initial interval
+REPEAT_FRAG = "backoff defeated by one repeated identical handshake fragment"
+SITE_REPEAT = ("internal/fragmentbuffer pushHandshakeFragments / internal/handshake fsm13.go handleReceivedFlight "
+               "(an identical fragment with message_seq >= current is new data every time)")
+SIG_REPEAT = {"monitor": REPEAT_FRAG, "version": 13}
 
 
 # ---------------------------------------------------------------- traces -> Coq terms
@@ -28,6 +35,11 @@ def gident(variant):
 
 def cfg_term(c):
     return "(mk_cfg g13_flags %s %d %s)" % (gident(c["variant"]), c["interval_ms"], cbool(not c["no_backoff"]))
+
+
+def is_app(e):
+    recs = e.get("recs") or []
+    return bool(recs) and all(r["k"] == "app" for r in recs)
 
 
 def frag_term(f):
@@ -57,10 +69,14 @@ def case_term(c):
     for e in c["events"]:
         if e["ev"] == "emit":
             side_of[e["idx"]] = e["side"]
+            if is_app(e):
+                continue          # written by the application, not by the handshake machinery: outside the model
             kidx[e["idx"]] = counts[e["side"]]
             counts[e["side"]] += 1
             outs[e["side"]].append("(%d, %s)" % (e["t"], dgram_term(e.get("recs") or [])))
         elif e["ev"] == "deliver":
+            if e["idx"] not in kidx:
+                continue          # application data: parked or handed to Read, no handshake event
             moves.append("Deliver %s %d %d" % (cbool(side_of[e["idx"]] == "client"), kidx[e["idx"]], e["t"]))
         elif e["ev"] == "inject":
             moves.append("Inject %s %s %d" % (cbool(e["side"] == "client"), dgram_term(e.get("recs") or []), e["t"]))
@@ -97,12 +113,12 @@ def established(c):
 
 def nontrivial(c):
     return (bool(c["mask"] and any(a != "pass" for a in c["mask"])) or bool(c.get("silence_to")) or bool(c.get("reverse_to"))
-            or bool(c.get("inject")))
+            or bool(c.get("inject")) or bool(c.get("server_writes")))
 
 
 def case_key(c):
     return (c["variant"], tuple(c["mask"] or []), c["interval_ms"], c["no_backoff"], c.get("silence_from"),
-            c.get("silence_until"), c.get("silence_to"), c.get("reverse_to"),
+            c.get("silence_until"), c.get("silence_to"), c.get("reverse_to"), c.get("server_writes") or 0,
             tuple((i["at"], i["to"], i["ht"], i["ms"], i["fo"], i["fl"], i["tl"], i["seq"]) for i in (c.get("inject") or [])))
 
 
@@ -121,7 +137,7 @@ def replay_of(c):
 
 def slim(c):
     d = {k: c.get(k) for k in ("variant", "mask", "interval_ms", "no_backoff", "silence_from", "silence_until", "silence_to",
-                               "reverse_to", "inject", "cdone", "sdone", "cerr", "serr", "tdone", "tfault", "data_ok", "mtu", "notes")}
+                               "reverse_to", "inject", "server_writes", "cdone", "sdone", "cerr", "serr", "tdone", "tfault", "data_ok", "mtu", "notes")}
     evs = []
     for e in c["events"][:160]:
         x = {k: e[k] for k in ("ev", "idx", "side", "t") if k in e}
@@ -156,7 +172,7 @@ def timer_groups(c, side):
     delivered to `side` so far at each"""
     out, ndel = [], 0
     for e in c["events"]:
-        if e["ev"] == "deliver" and e["side"] == side:
+        if e["ev"] in ("deliver", "inject") and e["side"] == side:
             ndel += 1
         elif e["ev"] == "emit" and e["side"] == side and e["cause"] == "timer":
             if not out or out[-1][0] != e["t"]:
@@ -193,17 +209,17 @@ def monitor_discipline(c, F):
         for (t0, d0), (t1, d1), (t2, d2) in zip(g, g[1:], g[2:]):
             if d0 == d1 == d2 and t0 > 0:
                 g1, g2 = t1 - t0, t2 - t1
-                want = g1 if c["no_backoff"] else min(2 * g1, 60000)
+                want = g1 if (c["no_backoff"] or g1 >= 60000) else min(2 * g1, 60000)
                 if g2 != want:
                     return "%s retransmission gaps %d ms then %d ms (expected %d) with no input in between" % (side, g1, g2, want)
         for (t0, d0), (t1, d1) in zip(g, g[1:]):
-            if d0 == d1 and t1 - t0 > 60000:
+            if d0 == d1 and t1 - t0 > max(60000, c["interval_ms"]):
                 return "%s retransmission interval %d ms above the 60 s cap" % (side, t1 - t0)
         m = _monitor_backoff_floor(c, side)
         if m:
             return m
         nem = sum(1 for e in c["events"] if e["ev"] == "emit" and e["side"] == side)
-        ndel = sum(1 for e in c["events"] if e["ev"] == "deliver" and e["side"] == side)
+        ndel = sum(1 for e in c["events"] if e["ev"] in ("deliver", "inject") and e["side"] == side)
         # the initial flight at time 0 is caused by neither a timer nor a delivery
         if nem > F + len(g) * F + ndel * (F + 1):
             return "%s emitted %d datagrams for %d timer expiries and %d received datagrams (flight size %d)" % (
@@ -239,6 +255,7 @@ def _monitor_backoff_floor(c, side):
     content = {}
     seen_idx, seen_rec = set(), set()
     k, tlast = 0, None
+    nst_phase = False     # the NewSessionTicket has its own schedule (post_handshake.go): doubling, then 60 s whatever I is
     for e in c["events"]:
         if e["ev"] == "emit":
             content[e["idx"]] = e.get("recs") or []
@@ -247,7 +264,11 @@ def _monitor_backoff_floor(c, side):
             if e["cause"] == "timer":
                 if e["t"] == 0 or (tlast is not None and e["t"] == tlast):
                     continue                # the initial flight is not an expiry
-                if tlast is not None and k >= 1 and e["t"] - tlast < min(I * 2 ** k, 60000):
+                if tlast is not None and k >= 1 and e["t"] - tlast < (min(I * 2 ** k, 60000) if (I < 60000 or nst_phase) else I):
+                    if _repeated_injection(c, side):
+                        return REPEAT_FRAG + " (%s retransmitted %d ms after its previous timer expiry although %d expiries had " \
+                            "passed with nothing but copies of one fragment received; floor %d ms)" % (
+                                side, e["t"] - tlast, k, min(I * 2 ** k, 60000))
                     return "%s retransmitted %d ms after its previous timer expiry although %d expiries had passed with nothing " \
                            "new received (floor %d ms): the interval was restored by stale data" % (
                                side, e["t"] - tlast, k, min(I * 2 ** k, 60000))
@@ -255,12 +276,14 @@ def _monitor_backoff_floor(c, side):
                 tlast = e["t"]
             elif any(r["k"] == "hs" and r["ht"] == 4 for r in e.get("recs") or []):
                 k, tlast = 0, None        # the NewSessionTicket starts its own schedule
-        elif e["ev"] == "deliver" and e["side"] == side:
-            if e["idx"] in seen_idx:
-                continue
-            seen_idx.add(e["idx"])
+                nst_phase = True
+        elif e["ev"] in ("deliver", "inject") and e["side"] == side:
+            if e["ev"] == "deliver":
+                if e["idx"] in seen_idx and not any(r["k"] == "hs" and r["e"] == 0 for r in content.get(e["idx"], [])):
+                    continue            # a replayed protected datagram is inert
+                seen_idx.add(e["idx"])
             new = False
-            for r in content.get(e["idx"], []):
+            for r in (content.get(e["idx"], []) if e["ev"] == "deliver" else (e.get("recs") or [])):
                 if r["k"] == "hs":
                     key = (r["e"], r["ms"], r["fo"], r["fl"])
                     if key not in seen_rec:
@@ -271,6 +294,16 @@ def _monitor_backoff_floor(c, side):
             if new:
                 k, tlast = 0, None
     return None
+
+
+def _repeated_injection(c, side):
+    seen = set()
+    for i in c.get("inject") or []:
+        key = (i["to"], i["ht"], i["ms"], i["fo"], i["fl"], i["tl"])
+        if i["to"] == side and key in seen:
+            return True
+        seen.add(key)
+    return False
 
 
 def _acks_nst(c, r):
@@ -395,6 +428,16 @@ def _leg(chk, prop, leg, test, seed_off, monitor, monitor_name, rule, regenerate
                                     "%s [variant %s, injected %s, silence to %s until %s]" % (
                                         m, c["variant"], c.get("inject"), c.get("silence_to") or "-", c.get("silence_until")),
                                     replay_of(c)) or found
+                continue
+            if m.startswith(REPEAT_FRAG):
+                if REPEAT_FRAG in reported:
+                    continue
+                reported.add(REPEAT_FRAG)
+                found = chk.finding(SITE_REPEAT, SIG_REPEAT,
+                                    "%s [variant %s, %d copies of fragment %s every 400 ms to the %s]" % (
+                                        m, c["variant"], len(c.get("inject") or []),
+                                        {k: (c.get("inject") or [{}])[0].get(k) for k in ("ht", "ms", "fo", "fl", "tl")},
+                                        (c.get("inject") or [{}])[0].get("to")), replay_of(c)) or found
                 continue
             key = (c["variant"], re.split(r" at \d| gaps|: client=| \d+ ms", m)[0][:80])
             if key in reported:
